@@ -7,7 +7,8 @@
    Model functions: Model/SvObs.v, Model/MpsPad.v, tied to /repo by the exact correspondences of tools/props/c13.py. *)
 From Coq Require Import List Arith Bool Reals.
 From EV Require Import Model.SvBase Model.SvHam Model.SvState Model.SvObs Model.TransferMat Model.MPSAlg Model.MpsPad
-  Proofs.SvBaseProofs Proofs.SvComplexInstance Proofs.SvObsProofs Proofs.SvObsRanges Proofs.MpsPadProofs.
+  Proofs.SvBaseProofs Proofs.SvComplexInstance Proofs.SvObsProofs Proofs.SvObsRanges Proofs.MpsPadProofs
+  Model.MpsObs Proofs.MPSInner Proofs.MpsObsProofs.
 Import ListNotations.
 Local Open Scope nat_scope.
 
@@ -188,7 +189,52 @@ Theorem C13_extended_index_spec : forall (mask : list bool) (k : nat),
   (ext_index mask k = None <-> count_true mask <= k).
 Proof. intros mask k. split; [intros e; apply ext_index_sound | apply ext_index_none]. Qed.
 
-(* C13_mps_expectation_partial: MPS.expect_batch / get_correlation_matrix / MPO.expect (QR inside) and the
-   entanglement entropy (SVD) are not proved; they are compared with dense formulas (tolerance 1e-9) on random
-   non-canonical, unnormalised states by the falsifier of tools/props/c13.py.  C13 uses the padded pair only
-   through amplitudes and elements, which the two theorems above determine completely. *)
+(* MPS.expect_batch (Model/MpsObs.expect_batch: both sweeps away from the declared orthogonality centre, torch.linalg.qr
+   an oracle [qr] of which the code keeps only R), every chain whose consecutive bonds fit, every centre, every batch of
+   one-site operators, every commutative ring with involution: the table T[q][i] depends on the R factors only through
+   R^dagger R.  Any two oracles that preserve the Gram matrix of their argument (what M = Q R with Q^dagger Q = 1
+   guarantees, whatever the sign/phase/pivoting conventions of LAPACK) give the same table -- in particular the table
+   of a real QR equals the table obtained with R = M, i.e. by carrying the whole contracted block along without
+   factorising.  (Premises satisfiable with two different oracles: MpsObsProofs.expect_batch_gauge_example.) *)
+Theorem C13_mps_expect_batch_gauge : forall (K : Type) (Ko : RingOps K),
+  ring_theory (TransferMat.k0 Ko) (TransferMat.k1 Ko) (TransferMat.kadd Ko) (TransferMat.kmul Ko)
+              (TransferMat.ksub Ko) (TransferMat.kopp Ko) (@eq K) ->
+  (forall a b, TransferMat.kconj Ko (TransferMat.kadd Ko a b) = TransferMat.kadd Ko (TransferMat.kconj Ko a) (TransferMat.kconj Ko b)) ->
+  (forall a b, TransferMat.kconj Ko (TransferMat.kmul Ko a b) = TransferMat.kmul Ko (TransferMat.kconj Ko a) (TransferMat.kconj Ko b)) ->
+  TransferMat.kconj Ko (TransferMat.k0 Ko) = TransferMat.k0 Ko ->
+  forall (qr1 qr2 : Mat K -> Mat K), qr_gram_ok Ko qr1 -> qr_gram_ok Ko qr2 ->
+  forall (Ls : list (T3 K)) (C : T3 K) (Rs : list (T3 K)) (n m : nat) (ops : list (Op K)),
+  bonds_ok n (Ls ++ C :: Rs) m ->
+  expect_batch Ko qr1 (length Ls) (Ls ++ C :: Rs) ops = expect_batch Ko qr2 (length Ls) (Ls ++ C :: Rs) ops.
+Proof. exact expect_batch_gauge. Qed.
+
+(* one step of the sweep: the site Gram tensor sum_k conj(C'[k][s][r]) C'[k][s'][r'] of the next centre
+   C' = tensordot(R, A) -- all that expect_batch reads from C' -- is the Gram matrix of R transported through A. *)
+Theorem C13_mps_qr_step_gram : forall (K : Type) (Ko : RingOps K),
+  ring_theory (TransferMat.k0 Ko) (TransferMat.k1 Ko) (TransferMat.kadd Ko) (TransferMat.kmul Ko)
+              (TransferMat.ksub Ko) (TransferMat.kopp Ko) (@eq K) ->
+  (forall a b, TransferMat.kconj Ko (TransferMat.kadd Ko a b) = TransferMat.kadd Ko (TransferMat.kconj Ko a) (TransferMat.kconj Ko b)) ->
+  (forall a b, TransferMat.kconj Ko (TransferMat.kmul Ko a b) = TransferMat.kmul Ko (TransferMat.kconj Ko a) (TransferMat.kconj Ko b)) ->
+  TransferMat.kconj Ko (TransferMat.k0 Ko) = TransferMat.k0 Ko ->
+  forall (R : Mat K) (A : T3 K) (s s' r r' : nat),
+  TransferMat.sumn Ko (mr R) (fun k => TransferMat.kmul Ko (TransferMat.kconj Ko (tf (absorb_l Ko R A) k s r)) (tf (absorb_l Ko R A) k s' r'))
+  = TransferMat.sumn Ko (dl A) (fun l => TransferMat.sumn Ko (dl A) (fun l' =>
+      TransferMat.kmul Ko (gram Ko R l l') (TransferMat.kmul Ko (TransferMat.kconj Ko (tf A l s r)) (tf A l' s' r')))).
+Proof. exact gram_absorb_l. Qed.
+
+(* the oracles of the exact correspondence: R = M and R = i*M preserve the Gram matrix (the gauge theorem applies to
+   them), they differ as functions, and on a concrete 3-site chain with centre 1 the occupation table is the same. *)
+Theorem C13_mps_expect_batch_gauge_nonvacuous :
+  qr_gram_ok gi_ops qr_id /\ qr_gram_ok gi_ops qr_phase /\
+  (exists M, mf (qr_id M) 0 0 <> mf (qr_phase M) 0 0) /\
+  occupation gi_ops qr_phase 1 ex_chain = Some [(12, 0)%Z; (3, 0)%Z; (20, 0)%Z] /\
+  occupation gi_ops qr_id 1 ex_chain = occupation gi_ops qr_phase 1 ex_chain.
+Proof.
+  split; [exact qr_id_gram_ok|]. split; [exact qr_phase_gram_ok|].
+  exact (proj2 expect_batch_gauge_example).
+Qed.
+
+(* C13_mps_expectation_partial: that MPS.expect_batch on a chain whose declared centre is truthful equals the dense
+   <psi|O_q|psi> is checked EXACTLY (Gaussian-integer isometries, R = M) by the oracle of the correspondence in
+   tools/props/c13.py but not proved; get_correlation_matrix / MPO.expect and the entanglement entropy (SVD) are
+   compared with dense formulas (tolerance 1e-9) on random non-canonical, unnormalised states by the falsifier. *)
